@@ -564,6 +564,17 @@ Section Prims.
                 end
       | _ => stuck f s
       end
+    else if is "slice:empty" then
+      match args with [] => k (VCtor "Slice" []) s | _ => stuck f s end
+    else if is "from_raw_parts" then
+      (* core::slice::from_raw_parts(data, len): the elements are exposed to safe code *)
+      match args with
+      | [p; VInt n] => match val_eptr p with
+                       | Some q => lift_k (expose_slice cfg q n) (fun es => VCtor "Slice" (map VInt es)) s k
+                       | None => stuck f s
+                       end
+      | _ => stuck f s
+      end
     else if is "eq" then
       (* core::ptr::eq(self.buf.as_ptr(), DEFAULT_U8): is the handle the shared sentinel? *)
       match args with
